@@ -12,7 +12,7 @@ import (
 	"hzcheck/esp"
 )
 
-func init() { register("C12", c12Const, c12Index, c12Loop, c12Assembly) }
+func init() { register("C12", c12Const, c12Index, c12Loop, c12Assembly, c12AbortFirst) }
 
 const pkgRoute = Mod + "/pkg/route"
 
